@@ -122,6 +122,22 @@ def run_history(run, case):
         return rec
     for k in range(n):
         issue(k)
+    # a second client object of the process (its own connection) with requests of its own outstanding - the same transaction ids,
+    # as both count from the same start: nothing that happens on the first connection concerns them
+    other_recs = []
+    if case.get('companion', True):
+        from pymodbus.register_read_message import ReadHoldingRegistersRequest as _RHR
+        p2 = make_protocol(variant, case.get('ctor', 'default'))
+        p2.makeConnection(proto_helpers.StringTransport())
+        if case.get('tid_start') is not None and not case.get('_defaults_tid'):
+            p2.transaction.tid = case['tid_start']
+        for k in range(min(n, 3)):
+            rec2 = Rec(1000 + k)
+            try:
+                p2.execute(_RHR(3000 + k, 1, unit=units[0])).addCallbacks(rec2.cb, rec2.eb)
+            except Exception:  # noqa
+                pass
+            other_recs.append(rec2)
     # outstanding tids pairwise distinct
     known_tids = [t for t in tids if t is not None]
     if variant == 'tcp' and len(set(known_tids)) != len(known_tids):
@@ -209,6 +225,10 @@ def run_history(run, case):
         else:
             if nf != 0:
                 kinds.setdefault('fired-without-reply', 'deferred of request %d fired with %r although no reply for it arrived' % (k, rec.fired[0]))
+    for rec2 in other_recs:
+        if rec2.fired:
+            kinds.setdefault('other-client-fired', "a request outstanding on ANOTHER client object of the process (no reply, no loss on its connection) fired with %r" % (rec2.fired[0],))
+    run.count('other_client_deferreds_checked', len(other_recs))
     for e in escaped:
         kinds.setdefault('escaped:%s' % type(e).__name__, 'exception out of dataReceived/connectionLost: %r' % (e,))
     run.count('deferreds_checked', len(recs))
